@@ -247,6 +247,53 @@ pub const SPIN_CPU_SECS: u64 = 90;
 /// wall-clock seconds without progress before the worker gives up (inconclusive, not a violation)
 pub const STUCK_WALL_SECS: u64 = 300;
 
+/// set while the worker thread is inside a task poll (simnet's runtime hooks)
+pub static IN_POLL: std::sync::atomic::AtomicBool = std::sync::atomic::AtomicBool::new(false);
+pub static POLL_START_WALL_MS: std::sync::atomic::AtomicU64 = std::sync::atomic::AtomicU64::new(0);
+pub static WORKER_TID: std::sync::atomic::AtomicI64 = std::sync::atomic::AtomicI64::new(0);
+/// a poll that has been sleeping (thread state S/D, no CPU) for this long is a blocked runtime thread
+pub const BLOCKED_POLL_SECS: u64 = 120;
+
+/// set by `vcheck replay`: (property id, replay path) so that a watchdog exit still prints the verdict line
+pub static REPLAY_CTX: std::sync::OnceLock<(String, String)> = std::sync::OnceLock::new();
+
+fn watchdog_exit(code: i32, is_violation: bool) -> ! {
+    if let Some((id, path)) = REPLAY_CTX.get() {
+        if is_violation {
+            println!("VIOLATION property={} replay={}", id, path);
+            std::process::exit(1);
+        }
+        println!("INCONCLUSIVE property={} the replay made no progress", id);
+        std::process::exit(2);
+    }
+    std::process::exit(code)
+}
+
+pub fn poll_begin() {
+    POLL_START_WALL_MS.store(wall_ms(), std::sync::atomic::Ordering::Relaxed);
+    IN_POLL.store(true, std::sync::atomic::Ordering::Release);
+}
+pub fn poll_end() {
+    IN_POLL.store(false, std::sync::atomic::Ordering::Release);
+}
+pub fn note_worker_thread() {
+    // SAFETY: gettid has no preconditions
+    let tid = unsafe { libc::syscall(libc::SYS_gettid) };
+    WORKER_TID.store(tid as i64, std::sync::atomic::Ordering::Relaxed);
+}
+
+/// (state, utime+stime in clock ticks) of a thread of this process
+fn thread_stat(tid: i64) -> Option<(char, u64)> {
+    let s = std::fs::read_to_string(format!("/proc/self/task/{tid}/stat")).ok()?;
+    // fields after the ")" that closes the command name
+    let rest = &s[s.rfind(')')? + 2..];
+    let f: Vec<&str> = rest.split_whitespace().collect();
+    let state = f.first()?.chars().next()?;
+    let utime: u64 = f.get(11)?.parse().ok()?;
+    let stime: u64 = f.get(12)?.parse().ok()?;
+    Some((state, utime + stime))
+}
+
 fn process_cpu_ms() -> u64 {
     let mut ts = libc::timespec { tv_sec: 0, tv_nsec: 0 };
     // SAFETY: plain syscall wrapper writing into a local timespec
@@ -276,11 +323,36 @@ pub fn start_watchdog() {
         let wall = wall_ms().saturating_sub(PROGRESS_WALL_MS.load(std::sync::atomic::Ordering::Relaxed));
         if cpu > spin_secs * 1000 {
             eprintln!("SPIN-WATCHDOG: the current case has burnt {} s of CPU without finishing (busy loop inside one poll)", cpu / 1000);
-            std::process::exit(3);
+            watchdog_exit(3, true);
+        }
+        // a task poll that does not return while its thread sleeps: something blocks the runtime thread
+        // (a lock held across an await, a blocking call). Observed state, not elapsed time, decides.
+        if IN_POLL.load(std::sync::atomic::Ordering::Acquire) {
+            let in_poll_ms = wall_ms().saturating_sub(POLL_START_WALL_MS.load(std::sync::atomic::Ordering::Relaxed));
+            let tid = WORKER_TID.load(std::sync::atomic::Ordering::Relaxed);
+            if in_poll_ms > BLOCKED_POLL_SECS * 1000 && tid != 0 {
+                if let Some((_, cpu0)) = thread_stat(tid) {
+                    let mut always_asleep = true;
+                    for _ in 0..10 {
+                        std::thread::sleep(std::time::Duration::from_millis(500));
+                        match thread_stat(tid) {
+                            Some((st, cpu)) if (st == 'S' || st == 'D') && cpu == cpu0 => {}
+                            _ => {
+                                always_asleep = false;
+                                break;
+                            }
+                        }
+                    }
+                    if always_asleep && IN_POLL.load(std::sync::atomic::Ordering::Acquire) {
+                        eprintln!("BLOCKED-WATCHDOG: a task poll has not returned for {} s and its thread is asleep without using CPU: the runtime thread is blocked (lock held across an await / blocking call)", in_poll_ms / 1000);
+                        watchdog_exit(5, true);
+                    }
+                }
+            }
         }
         if wall > STUCK_WALL_SECS * 1000 {
             eprintln!("STUCK-WATCHDOG: no case finished for {} s of wall-clock time", wall / 1000);
-            std::process::exit(4);
+            watchdog_exit(4, false);
         }
     });
 }
